@@ -11,6 +11,7 @@ Fixpoint objs (D : denv) (v : pval) {struct v} : list pval :=
        | PSeq _ _ _ _ _ l => flat_map (fun x => objs D x) l
        | PDict _ _ _ l => kt_objs D l ++ flat_map (fun kv => objs D (snd kv)) l
        | PDefDict _ _ _ f l => kt_objs D l ++ objs D f ++ flat_map (fun kv => objs D (snd kv)) l
+       | POpFunc _ _ a => objs D a
        | _ => []
        end.
 
@@ -35,6 +36,13 @@ Definition dict_clsb (mo c : pstr) : bool :=
 Definition seq_clsb (q : seqkind) (c : pstr) : bool :=
   match q with QList => pstr_eqb c (s "list") | QTuple => pstr_eqb c (s "tuple") | QSet => pstr_eqb c (s "set") end.
 
+Definition opfunc_okb (c : pstr) (attrs : pval) : bool :=
+  match attrs with
+  | PSeq _ _ _ _ _ (PScalar _ (SStr _) :: _) => true
+  | PSeq _ _ _ _ _ (_ :: _) => pstr_eqb c (s "itemgetter")
+  | _ => false
+  end.
+
 (* the proved fragment of the property's grammar *)
 Fixpoint fragb (F : cfacts) (D : denv) (v : pval) {struct v} : bool :=
   match v with
@@ -46,6 +54,7 @@ Fixpoint fragb (F : cfacts) (D : denv) (v : pval) {struct v} : bool :=
       && forallb (fun kv => fragb F D (snd kv)) l
   | PSlice _ a b c => bound_supported a && bound_supported b && bound_supported c
   | PFunc _ mo c | PType _ mo c => resolvable F mo c
+  | POpFunc _ c a => resolvable F (s "operator") c && opfunc_okb c a && fragb F D a
   | _ => false
   end.
 
@@ -117,7 +126,11 @@ Section Pack.
     - intros; discriminate.
     - intros; discriminate.
     - intros; discriminate.
-    - intros; discriminate.
+    - intros id c a IHa Hf Hi. cbn [fragb] in Hf. apply andb_prop in Hf. destruct Hf as [Hf Hfa]. apply andb_prop in Hf. destruct Hf as [Hr Hok].
+      cbn [vok]. split; [unfold Objs; apply Hi; cbn [objs]; left; reflexivity|]. split; [exact Hr|]. split.
+      + unfold opfunc_okb in Hok. unfold opfunc_attrs_ok. destruct a; try discriminate Hok. destruct items as [|x items]; [discriminate Hok|].
+        destruct x; try (apply pstr_eqb_eq in Hok; exact Hok). destruct sc; try (apply pstr_eqb_eq in Hok; exact Hok). exact I.
+      + apply IHa; [exact Hfa|]. intros y Hy. apply Hi. cbn [objs]. right. exact Hy.
     - intros; discriminate.
     - intros; discriminate.
   Qed.
